@@ -3,7 +3,7 @@ CONSTANTS
   Calls = {1, 2}
   Tok = {1, 2, 3, 4}
   Cap = 1
-  Params = {3, 4, 5, 8, 17}
+  Params = {3, 4, 19, 20, 17}
 INVARIANTS TypeOK InflightDistinct NoCrossParamShare FailedSound
 PROPERTIES RetryReuses OkTokenRetired
 CHECK_DEADLOCK FALSE
